@@ -43,6 +43,9 @@ REAL_VS_STUB = {"generator CLI incl. httpx.post request building": "real, child 
 URL = "http://schema.test/graphql"
 PEER_FAULTS = (
     [{"kind": "status", "status": s} for s in (301, 400, 401, 404, 500, 503, 199, 300, 201, 299)]
+    + [{"kind": "status", "status": st_, "body": b_} for st_, b_ in ((500, 0), (502, 1), (400, 2), (401, 3), (403, 4), (503, 5), (429, 6), (404, 7))]
+    + [{"kind": "redirect", "status": st_, "to": to_} for st_, to_ in ((307, "/elsewhere"), (308, "/elsewhere"), (302, "/elsewhere"),
+                                                                       (301, "http://schema.test/moved/graphql"), (307, "self"))]
     + [{"kind": "nonjson", "v": v} for v in range(6)]
     + [{"kind": "torn", "at": a} for a in (1, 17, 1000, 50000)]
     + [{"kind": "json_nonobject", "v": v} for v in range(4)]
@@ -213,12 +216,24 @@ def run_case(case, ch: Choices) -> RunResult:
             mb = worlds.materialize(world, root_b, spart, None, decoys_seed=decoys, creation_order_seed=ch.draw("lay.creation", 2 ** 16),
                                     tail_seed=ch.draw("lay.tails", 2 ** 16), linked_file_seed=linked)
             enum_seed = ch.draw("lay.enum", 2 ** 16)
+            pre_b = None
+            if ch.chance("lay.same_process_other_revision", 1, 3):
+                # earlier in the same interpreter: another project with the very same relative file names, holding another
+                # revision of the schema (one more enum) - what was read there must not be what is used here
+                prev = dict(world)
+                prev["defs"] = [dict(d) for d in world["defs"]]
+                prev["defs"][0]["sdl"] = prev["defs"][0]["sdl"] + "\n\nenum ZzOtherRevisionOnly {\n  GONE_A\n  GONE_B\n}"
+                root_prev = os.path.join(base, "b%d_other_revision" % pi)
+                mprev = worlds.materialize(prev, root_prev, spart, None)
+                pre_b = [{"cwd": root_prev, "argv": mprev["argv"]}]
+                res.bump("partition.same_process_after_other_revision_with_same_file_names")
             # (the first partition always under the ASCII locale, the others under a drawn one)
             loc = (genrun.LOCALE_ENVS[1] if pi == 0 else genrun.LOCALE_ENVS[ch.draw("env.locale", len(genrun.LOCALE_ENVS))]) \
                 if world.get("locale_safe") else None
             if loc:
                 res.bump("env.partition_generated_under_another_locale")
-            rb = genrun.run_child(root_b, mb["argv"], mb["targets"], hashseed=ch.pick("env.hs", [0, 1, 2]), enum_seed=enum_seed, proc_env=loc)
+            rb = genrun.run_child(root_b, mb["argv"], mb["targets"], hashseed=ch.pick("env.hs", [0, 1, 2]), enum_seed=enum_seed, proc_env=loc,
+                                  pre_runs=pre_b, timeout=90 if not pre_b else 200)
             if rb.get("harness_failure"):
                 raise RuntimeError("child failed: %s" % rb.get("child_stderr"))
             res.bump("source.partition")
